@@ -233,6 +233,8 @@ def _routine_case(item):
             for eps in (1e-6, 3e-5):
                 bad = S.copy()
                 bad[0, -1] += eps
+                if np.linalg.norm(bad.T @ Om @ bad - Om) < 1e-7:
+                    continue        # for this S the perturbed matrix is still symplectic (a shear): not an invalid input
                 try:
                     O1, Z, O2 = dec.bloch_messiah(bad)
                     ok = np.allclose(O1 @ Z @ O2, bad, atol=1e-8) and all(np.allclose(O.T @ Om @ O, Om, atol=1e-8) for O in (O1, O2))
